@@ -37,7 +37,7 @@ def _stochastic(draw, n):
 
 @st.composite
 def meas_circuit_recipes(draw, max_w=4, max_ops=10, qudits=False, clifford=False, channels=False, max_branches=64,
-                         conds=True, confusion=True, resets=True, qkinds=None, pauli_meas=True):
+                         conds=True, confusion=True, resets=True, qkinds=None, pauli_meas=True, ch_weight=1):
     r = draw(GC.wires(1, max_w, qudits))
     if qkinds:
         r["qkind"] = draw(st.sampled_from(qkinds))
@@ -52,7 +52,7 @@ def meas_circuit_recipes(draw, max_w=4, max_ops=10, qudits=False, clifford=False
     else:
         pred = lambda f: f.unitary and not f.qudit and "zeroq" not in f.tags
     for i in range(nops):
-        kind = draw(st.sampled_from(["g", "g", "g", "m", "m", "r", "cg", "cg", "cg", "ch", "pm", "pm"]))
+        kind = draw(st.sampled_from(["g", "g", "g", "m", "m", "r", "cg", "cg", "cg", "ch", "pm", "pm"] + ["ch"] * (ch_weight - 1)))
         if kind == "pm":
             qw = [j for j, d in enumerate(dims) if d == 2]
             if not pauli_meas or not qw or budget < 2:
